@@ -127,22 +127,31 @@ class RawClient(object):
             head += "%s: %s\r\n" % (k, v)
         head += "\r\n"
         sock = self.srv.connect()
+        self.send_error = None
         try:
-            sock.sendall(head.encode("latin-1"))
-            if segments is None:
-                sock.sendall(data)
-            else:
-                pos = 0
-                for cut in list(segments) + [len(data)]:
-                    if cut > pos:
-                        sock.sendall(data[pos:cut])
-                        pos = cut
-                        if pause:
-                            pause()
+            try:
+                sock.sendall(head.encode("latin-1"))
+                if segments is None:
+                    sock.sendall(data)
+                else:
+                    pos = 0
+                    for cut in list(segments) + [len(data)]:
+                        if cut > pos:
+                            sock.sendall(data[pos:cut])
+                            pos = cut
+                            if pause:
+                                pause()
+            except OSError as ex:
+                # the server answered (or closed) before the whole body was sent: what it said is the observation
+                self.send_error = "%s after %d of %d body bytes" % (type(ex).__name__, 0 if segments is None else pos,
+                                                                    len(data))
             raw = recv_all(sock)
         finally:
             sock.close()
-        return parse_http(raw)
+        status, headers, payload = parse_http(raw)
+        if self.send_error and status is None:
+            payload = ("<no reply; %s>" % self.send_error).encode()
+        return status, headers, payload
 
     def close(self):
         pass
